@@ -146,7 +146,7 @@ def enc_set(xs):
 
 class Obs(object):
     """one observation of the implementation: canonical string + the raw pieces the oracle needs"""
-    __slots__ = ('s', 'msgs', 'calls', 'fsm', 'ls', 'req', 'ack', 'nak', 'auth', 'after', 'exc', 'wanted')
+    __slots__ = ('s', 'msgs', 'calls', 'fsm', 'ls', 'req', 'ack', 'nak', 'auth', 'after', 'exc', 'wanted', 'x')
 
 def observe(irc):
     b = boot()
@@ -234,6 +234,497 @@ def run_impl(cfg, ops):
     return run
 
 # ------------------------------------------------------------------------------------------
+# real SocketDriver over a fake socket (STS / reset / epoch runs; shared with harness/c09.py)
+# ------------------------------------------------------------------------------------------
+import socket as _socket
+
+class FakeSocket(object):
+    """in-memory socket: records what is sent (globally ordered), hands out queued chunks"""
+    def __init__(self, world):
+        self.w = world
+        world.nsock += 1
+        self.id = world.nsock
+        self.inq = []
+        self._closed = False
+        self.tls = None
+        self.port = None
+    def settimeout(self, t): pass
+    def connect(self, addr): self.port = addr[1]
+    def send(self, data):
+        if self._closed:
+            raise _socket.error(9, 'Bad file descriptor')
+        self.w.sent.append((self.id, data))
+        return len(data)
+    def recv(self, n):
+        if self.inq:
+            return self.inq.pop(0)
+        raise _socket.timeout()
+    def shutdown(self, how): pass
+    def close(self):
+        if not self._closed:
+            self._closed = True
+            self.w.events.append(('closed',))
+    def fileno(self): return 100 + self.id
+
+class FakeClock(object):
+    def __init__(self): self.t = 100000
+    def time(self): return self.t
+    def sleep(self, x): pass
+    def __getattr__(self, n): return getattr(time, n)
+
+class NetWorld(object):
+    """per-process fake network: patched into supybot.utils.net / drivers.Socket once"""
+    def __init__(self, b):
+        self.b = b
+        self.nsock = 0; self.sent = []; self.events = []; self.socks = []
+        from supybot import utils
+        import supybot.drivers.Socket as S
+        import supybot.drivers as D
+        self.S = S; self.D = D
+        self.clock = FakeClock()
+        S.time = self.clock; D.time = self.clock; b.ircdb.time = self.clock
+        w = self
+        def getSocket(address, port=None, **kw):
+            s = FakeSocket(w); w.socks.append(s); return s
+        def wrap(conn, hostname=None, logger=None, certfile=None, verify=None, trusted_fingerprints=None, ca_file=None, **kw):
+            conn.tls = {'verify': bool(verify)}
+            return conn
+        utils.net.getSocket = getSocket
+        utils.net.getAddressFromHostname = lambda h, attempt=0: '192.0.2.1'
+        utils.net.ssl_wrap_socket = wrap
+        self.pending = None
+        def select(r, wl, x, t=None):
+            # a chunk waiting for delivery goes to the socket the driver is polling now
+            if w.pending is not None and r:
+                r[0].inq.append(w.pending); w.pending = None
+                w.delivered = (r[0].id, len(w.sent), len(w.events))
+            return ([c for c in r if getattr(c, 'inq', None)], [], [])
+        S.select.select = select
+        orig = S.SocketDriver.reconnect
+        def reconnect(self_, wait=False, reset=True, server=None):
+            if reset:
+                w.events.append(('reconnect', bool(wait), tuple(server) if server is not None else None))
+            before = len(w.socks)
+            r = orig(self_, wait=wait, reset=reset, server=server)
+            if len(w.socks) > before and self_.connected:
+                c = self_.conn
+                w.events.append(('connected', tuple(self_.currentServer), c.tls is not None, bool(c.tls and c.tls['verify'])))
+            return r
+        S.SocketDriver.reconnect = reconnect
+    def reset(self):
+        self.nsock = 0; self.sent = []; self.events = []; self.socks = []
+        self.S.SocketDriver._instances[:] = []
+        del self.D._newDrivers[:]
+
+_NET = None
+def networld():
+    global _NET
+    if _NET is None:
+        _NET = NetWorld(boot())
+    return _NET
+
+def tok_event(e):
+    if e[0] == 'reconnect':
+        return tok_call(e)
+    if e[0] == 'closed':
+        return 'X'
+    return 'C:%s:%d:%d' % (enc_server(e[1]), 1 if e[2] else 0, 1 if e[3] else 0)
+
+class RealRun(object):
+    """a real irclib.Irc driven by a real drivers.Socket.SocketDriver over FakeSocket.
+    cfg additionally: 'servers' [(host, port)], 'fingerprints' (bool)."""
+    def __init__(self, cfg):
+        self.b = boot()
+        self.w = networld()
+        self.w.reset()
+        self.cfg = cfg
+        c = full_cfg(cfg)
+        c['certvalidation'] = bool(c['verifycerts'] or c.get('fingerprints'))
+        apply_cfg(self.b, c)
+        net = self.b.conf.supybot.networks.test
+        self.servers = [tuple(x) for x in (c.get('servers') or [(SERVER, 6667)])]
+        net.servers.setValue(['%s:%d' % s for s in self.servers])
+        net.ssl.serverFingerprints.setValue(['sha256:' + '0' * 64] if c.get('fingerprints') else [])
+        self.w.clock.t = c['now']
+        del self.b.excs[:]
+        for i in list(self.b.world.ircs):
+            self.b.world.ircs.remove(i)
+        self.irc = self.b.irclib.Irc('test')
+        self.c = c
+        self.ops = []
+        self.lines = [cfg_line(dict(cfg, certvalidation=c['certvalidation']), real=True,
+                               servers=[(h, p, False) for h, p in self.servers])]
+        self.obs = []
+        self.drv = None
+
+    def _observe(self):
+        irc = self.irc; w = self.w; b = self.b
+        st = irc.state
+        d = irc.authenticate_decoder
+        exc = b.excs[0] if b.excs else '-'
+        del b.excs[:]
+        ev = [tok_event(e) for e in w.events]
+        ls = st.capabilities_ls
+        net = b.ircdb.networks.getNetwork('test')
+        q = irc.queue
+        queued = [tok_msg(m) for m in list(irc.fastqueue)]
+        for name in ('highpriority', 'normal', 'lowpriority'):
+            queued += [tok_msg(m) for m in list(getattr(q, name, []))]
+        sent = []
+        for sid, data in w.sent:
+            for line in data.decode('utf-8', 'replace').split('\r\n'):
+                if line:
+                    m = parse_line(b, line)
+                    sent.append('%d@%s' % (sid, tok_msg(m) if m is not None else 'M:?:' + wire.enc(line)))
+        drv = self.drv
+        f = [';'.join(ev) if ev else '-', st.fsm.state.name,
+             ','.join(wire.enc(k) + '=' + wire.enc_opt(ls[k]) for k in sorted(ls)) if ls else '-',
+             enc_set(st.capabilities_req), enc_set(st.capabilities_ack), enc_set(st.capabilities_nak),
+             wire.enc_list(irc.sasl_next_mechanisms), wire.enc_opt(irc.sasl_current_mechanism),
+             '1' if irc.sasl_authenticated else '0',
+             '~' if d is None else ('%d:%s' % (1 if d.ready else 0, wire.enc_list([c.decode() for c in d.chunks]))),
+             wire.enc(irc.nick), '1' if irc.afterConnect else '0', '-',
+             enc_set(type(irc).REQUEST_CAPABILITIES),
+             ','.join(wire.enc(k) + '=' + wire.enc(v) for k, v in sorted(net.stsPolicies.items())) if net.stsPolicies else '-',
+             ','.join(wire.enc(k) + '=' + str(v) for k, v in sorted(net.lastDisconnectTimes.items())) if net.lastDisconnectTimes else '-',
+             ';'.join(queued) if queued else '-', ';'.join(sent) if sent else '-',
+             '1' if drv.connected else '0', enc_server(tuple(drv.currentServer)),
+             ','.join(enc_server(tuple(x)) for x in drv.servers) if drv.servers else '-',
+             '1' if drv.nextReconnectTime is not None else '0', str(w.nsock)]
+        o = Obs()
+        o.s = '\t'.join(f); o.msgs = []; o.calls = list(w.events); o.fsm = st.fsm.state.name
+        o.ls = dict(ls); o.req = set(st.capabilities_req); o.ack = set(st.capabilities_ack); o.nak = set(st.capabilities_nak)
+        o.auth = irc.sasl_authenticated; o.after = irc.afterConnect; o.exc = exc
+        o.wanted = set(type(irc).REQUEST_CAPABILITIES)
+        o.x = {'wire': list(w.sent), 'events': list(w.events), 'policies': dict(net.stsPolicies),
+               'lastdisc': dict(net.lastDisconnectTimes), 'connected': drv.connected, 'sock': w.nsock,
+               'current': tuple(drv.currentServer), 'inbuffer': bytes(drv.inbuffer), 'queued': queued}
+        w.sent = []; w.events = []
+        return o
+
+    def start(self):
+        self.ops.append(('dstart',))
+        self.lines.append('dstart')
+        self.drv = self.w.S.SocketDriver(self.irc)
+        self.irc.driver = self.drv
+        # SocketDriver.__init__ connects but does not send; the model's drvStart flushes: do the same
+        self.drv._sendIfMsgs()
+        self.obs.append(self._observe())
+        return self.obs[-1]
+
+    def run(self, now, due, lines, partial=None):
+        """one SocketDriver.run(); `lines` (+ an unterminated `partial` tail) arrive in one recv() on the
+        socket current at select time.  The messages given to the model are what the driver will really
+        parse: its buffered partial line + this chunk, split at LF."""
+        b = self.b
+        self.ops.append(('run', now, bool(due), list(lines), partial))
+        self.w.clock.t = now
+        drv = self.drv
+        will_reconnect = drv.nextReconnectTime is not None and due
+        if drv.nextReconnectTime is not None:
+            drv.nextReconnectTime = now - 1 if due else now + 100000
+        raw = b''.join(l.encode('utf-8') + b'\r\n' for l in lines) + (partial.encode('utf-8') if partial else b'')
+        will_read = bool(raw) and (drv.connected or will_reconnect)
+        msgs = []
+        if will_read:
+            full = bytes(drv.inbuffer) + raw
+            for piece in full.split(b'\n')[:-1]:
+                text = self.b.drivers.Socket.decode_raw_line(piece).strip() if hasattr(self.b.drivers, 'Socket') else piece.decode('utf-8', 'replace').strip()
+                if not text:
+                    continue
+                m = parse_line(b, text)
+                if m is None:
+                    continue
+                msgs.append(m)
+        self.lines.append('\t'.join(['run', str(now), '1' if due else '0'] +
+                          ['%s;%s;%s' % (wire.enc(m.command), wire.enc_list(m.args), wire.enc(m.nick)) for m in msgs]))
+        self.w.pending = raw or None
+        self.w.delivered = None
+        net = b.ircdb.networks.getNetwork('test')
+        before = {'policies': dict(net.stsPolicies), 'lastdisc': dict(net.lastDisconnectTimes),
+                  'current': tuple(drv.currentServer), 'connected': drv.connected}
+        inbuf_before = bytes(drv.inbuffer)
+        drv.run()
+        self.w.pending = None
+        o = self._observe()
+        o.x['before'] = before; o.x['delivered'] = self.w.delivered; o.x['lines'] = list(lines); o.x['now'] = now
+        o.x['inbuffer_before'] = inbuf_before
+        self.obs.append(o)
+        return o
+
+    def close(self):
+        self.w.S.SocketDriver._instances[:] = []
+        if self.irc in self.b.world.ircs:
+            self.b.world.ircs.remove(self.irc)
+
+LATE_STATES = ('INIT_WAITING_MOTD', 'INIT_MOTD', 'CONNECTED', 'CONNECTED_SASL')
+
+def required_oracle(cfg, ops, obs):
+    """C09: with sasl.required the bot never sends CAP END / JOIN, never is past the negotiation and never
+    sets afterConnect unless SASL succeeded (903 seen => sasl_authenticated) on this connection.
+    Stub-driver histories: judged until the first driver abort of an epoch."""
+    if not cfg.get('required'):
+        return []
+    bad = []
+    aborted = False
+    for op, o in zip([('new',)] + list(ops), obs):
+        if o is None:
+            continue
+        if op[0] == 'reset':
+            aborted = False
+        if aborted:
+            continue
+        # in the very step in which Irc.do376 aborts, Owner.do376 (a callback running after it) still queues the
+        # JOINs; with the real driver they land in the queue that reconnect() has just reset and that is reset
+        # again before the next connection (checked on the wire in the real-driver histories), so only the
+        # recording stub ever hands them out: not judged in the abort step itself
+        sent = [m for m in o.msgs if (m.command == 'CAP' and m.args[:1] == ('END',)) or (m.command == 'JOIN' and not o.calls)]
+        if not o.auth:
+            if sent:
+                bad.append(('sasl_required_safe', 'sasl.required is set, SASL did not succeed, but the bot sent %r' % [(m.command,) + tuple(m.args) for m in sent]))
+            if o.after:
+                bad.append(('sasl_required_safe', 'sasl.required is set, SASL did not succeed, but afterConnect is set'))
+            if o.fsm in LATE_STATES:
+                bad.append(('sasl_required_safe', 'sasl.required is set, SASL did not succeed, but the connection state is %s' % o.fsm))
+        if o.calls:
+            aborted = True
+    return bad
+
+def sts_tokens(line):
+    """the `sts` items of a CAP LS / CAP NEW line the bot will look at: list of policy strings (None for a
+    valueless `sts`); [] when the line is not such a line"""
+    b = boot()
+    m = parse_line(b, line)
+    if m is None or m.command.upper() != 'CAP' or len(m.args) < 3:
+        return []
+    sub = m.args[1].upper()
+    if sub == 'LS' and len(m.args) == 4 and m.args[2] == '*':
+        caps = m.args[3]
+    elif sub in ('LS', 'NEW') and len(m.args) == 3:
+        caps = m.args[2]
+    else:
+        return []
+    out = []
+    for item in caps.split():
+        item = item.lstrip('=~')
+        if '=' in item:
+            k, v = item.split('=', 1)
+            if k == 'sts':
+                out.append(v)
+        elif item == 'sts':
+            out.append(None)
+    return out
+
+def policy_port(policy, need_duration=False):
+    d = {}
+    for kv in policy.split(','):
+        if '=' in kv:
+            k, v = kv.split('=', 1); d[k] = v
+        else:
+            d[kv] = None
+    try:
+        port = int(d['port'])
+        dur = int(d['duration']) if need_duration else None
+    except (KeyError, ValueError, TypeError):
+        return None
+    return (port, dur)
+
+def real_oracle(run):
+    """the C08 `epoch_clean` and the C09 STS statements evaluated on a real-driver history"""
+    bad = []
+    c = run.c
+    certval = bool(c['certvalidation'])
+    pending_upgrade = None      # (port) the next connection must use
+    sock_lines = {}             # socket id -> lines sent on it so far
+    for op, o in zip(run.ops, run.obs):
+        x = o.x
+        # --- sasl.required on the wire
+        if c['required'] and not o.auth:
+            for sid, data in x['wire']:
+                for l in data.decode('utf-8', 'replace').split('\r\n'):
+                    if l.startswith('CAP END') or l.startswith('JOIN '):
+                        bad.append(('sasl_required_safe', 'sasl.required is set, SASL did not succeed, but %r was written to socket %d' % (l, sid)))
+            if o.after or o.fsm in LATE_STATES:
+                bad.append(('sasl_required_safe', 'sasl.required is set, SASL did not succeed, but state=%s afterConnect=%s' % (o.fsm, o.after)))
+        # --- per socket: what was written
+        fresh_after_delivery = set()
+        dl = x.get('delivered')
+        for i, (sid, data) in enumerate(x['wire']):
+            ls_ = [l for l in data.decode('utf-8', 'replace').split('\r\n') if l]
+            sock_lines.setdefault(sid, [])
+            if dl is not None and sid > dl[0]:
+                fresh_after_delivery.add(sid)
+            sock_lines[sid] += ls_
+        # --- epoch_clean: a socket opened by a handler while an old chunk is being processed only gets the connect messages
+        for sid in fresh_after_delivery:
+            got = sock_lines[sid]
+            want = ['CAP LS :302'] + (['PASS :' + c['password']] if c['password'] else []) + ['NICK :' + c['nick'], 'USER %s 0 * :%s' % (c['ident'], c['user'])]
+            if got != want:
+                bad.append(('epoch_clean', 'socket %d (opened while processing a chunk received on socket %d) was sent %r, expected only the connect messages %r' % (sid, dl[0], got, want)))
+        if dl is not None and (x['sock'] > dl[0] or not x['connected']) and x['inbuffer']:
+            bad.append(('epoch_clean', 'after the reconnect the driver still buffers %r received on the old connection' % x['inbuffer']))
+        if op[0] != 'run':
+            # first connection
+            for e in x['events']:
+                if e[0] == 'connected':
+                    _check_applied(bad, c, e, dict(c['policies']), dict(c['lastdisc']), c['now'], certval)
+            continue
+        before = x['before']
+        # --- connections made in this op (the disconnection time is recorded when the old socket is closed)
+        lastdisc = dict(before['lastdisc'])
+        cur_host = before['current'][0]
+        for e in x['events']:
+            if e[0] == 'closed':
+                lastdisc[cur_host] = x['now']
+            if e[0] == 'connected':
+                cur_host = e[1][0]
+                if pending_upgrade is not None:
+                    srv = e[1]
+                    if not (srv[1] in pending_upgrade and e[2] and (e[3] or certval) and srv[3]):
+                        bad.append(('sts_insecure_upgrade', 'after an STS policy with port %r on an insecure connection the next connection is %r tls=%s verify=%s' % (sorted(pending_upgrade), srv, e[2], e[3])))
+                    pending_upgrade = None
+                else:
+                    # judged when the stored policies were not touched by this very operation
+                    # (a policy stored or expired earlier in the operation cannot be attributed from outside)
+                    if x['policies'] == before['policies']:
+                        _check_applied(bad, c, e, before['policies'], lastdisc, x['now'], certval)
+        # --- STS seen on the connection the chunk arrived on
+        if dl is not None and before['connected'] and dl[0] == x['sock'] - len([e for e in x['events'] if e[0] == 'connected']):
+            cur = before['current']
+            secure = bool(cur[3] or (c['ssl'] and certval))
+            ports = []
+            # judged when the policy is on the first line of the chunk (an earlier line may make the
+            # driver leave the connection for another reason, then the rest of the chunk is dropped)
+            toks = sts_tokens(x['lines'][0]) if x['lines'] and not x['inbuffer_before'] else []
+            if toks and toks[0] is not None:
+                for t in toks:
+                    pp = policy_port(t, need_duration=False) if t is not None else None
+                    if pp is not None:
+                        ports.append(pp[0])
+                if policy_port(toks[0], need_duration=secure) is None:
+                    ports = []       # the first policy does not parse: the bot ignores it and goes on
+            if ports and not secure:
+                # nothing more on this socket, nothing stored, next connection = policy port + verification
+                later = [(sid, d) for (sid, d) in x['wire'][dl[1]:] if sid == dl[0]]
+                if later:
+                    bad.append(('sts_insecure_upgrade', 'bytes %r written on the insecure socket after the STS policy arrived' % (later,)))
+                if x['policies'] != before['policies']:
+                    bad.append(('sts_store_only_secure', 'policy stored from an insecure connection: %r' % (x['policies'],)))
+                got = [e for e in x['events'][dl[2]:] if e[0] == 'reconnect']
+                if not got or got[0] != ('reconnect', True, (cur[0], ports[0], cur[2], True)):
+                    bad.append(('sts_insecure_upgrade', 'expected reconnect(server=(%r, %d, %r, True), wait=True) first, driver calls were %r' % (cur[0], ports[0], cur[2], got)))
+                else:
+                    conn = [e for e in x['events'][dl[2]:] if e[0] == 'connected']
+                    if conn:
+                        srv = conn[0][1]
+                        if not (srv[1] in ports and conn[0][2] and (conn[0][3] or certval) and srv[3]):
+                            bad.append(('sts_insecure_upgrade', 'connection after the STS upgrade: %r' % (conn[0],)))
+                    else:
+                        pending_upgrade = set(ports)
+        # --- a policy appears / changes only on a secure connection
+        if x['policies'] != before['policies']:
+            grown = {k: v for k, v in x['policies'].items() if before['policies'].get(k) != v}
+            if grown:
+                cur = before['current']
+                secure_then = bool(cur[3] or (c['ssl'] and certval))
+                # a reconnect inside the op may have changed the server: accept any server of this op that was secure
+                secure_any = secure_then or any(e[0] == 'connected' and (e[1][3] or (c['ssl'] and certval)) for e in x['events'])
+                if not secure_any:
+                    bad.append(('sts_store_only_secure', 'policies %r stored although the connection was not verified TLS' % grown))
+    return bad
+
+def _check_applied(bad, c, e, policies, lastdisc, now, certval):
+    srv = e[1]
+    pol = policies.get(srv[0])
+    if pol is None:
+        return
+    pp = policy_port(pol, need_duration=True)
+    if pp is None:
+        return
+    last = lastdisc.get(srv[0])
+    expired = last is not None and last + pp[1] < now
+    if expired:
+        return
+    if not (srv[1] == pp[0] and e[2] and (e[3] or certval) and srv[3]):
+        bad.append(('sts_applied', 'stored unexpired policy %r for %s but the connection is %r tls=%s verify=%s' % (pol, srv[0], srv, e[2], e[3])))
+
+STS_LINES = ['CAP * LS :multi-prefix sts=port=6697,duration=100 batch', 'CAP * LS :sts=port=6697', 'CAP * LS * :sts=port=7000,duration=5',
+             'CAP * LS :sts=duration=100 sasl', 'CAP * LS :sts=port=x,duration=1', 'CAP * LS :sts batch', 'CAP * NEW :sts=port=6697,duration=300',
+             'CAP * LS :sts=port=6697,duration=0', 'CAP * LS :sts=port=+66_97,duration=1_0', 'CAP * LS :sts=port=6697,duration=,port=7001',
+             'CAP * LS :batch sts=port=6697,duration=100000 sts=port=1', 'CAP * LS :sts=port=6697,duration=-5', 'CAP * NEW :sts=port=-1',
+             'CAP * LS :~sts=port=6698,duration=10', 'CAP * LS :sts=port=6697,foo,duration=3600,preload']
+
+def gen_real_cfg(r):
+    c = gen_cfg(r, 'real')
+    for k in ('forced', 'certvalidation'):
+        c.pop(k, None)
+    c['ssl'] = r.random() < 0.5
+    c['verifycerts'] = r.random() < 0.4
+    if r.random() < 0.3:
+        c['fingerprints'] = True
+    k = r.randint(0, 5)
+    if k >= 2:
+        c['policies'] = {SERVER: r.choice(['port=6697,duration=1000', 'port=6697,duration=100000', 'port=7000,duration=0', 'port=6697,duration=500,preload'])}
+        if k >= 3:
+            c['lastdisc'] = {SERVER: 100000 - r.choice([0, 10, 600, 999, 1001, 5000, 99999])}
+    if r.random() < 0.15:
+        c['servers'] = [(SERVER, 6667), ('alt.test', 7000)]
+    return c
+
+def script_real(r, cfg, n):
+    run = RealRun(cfg)
+    run.start()
+    now = cfg.get('now', 100000)
+    S = ':' + SERVER + ' '
+    for _ in range(n):
+        now += r.choice([0, 1, 1, 5, 60, 2000])
+        lines = []
+        for j in range(r.choice([0, 1, 1, 1, 2, 3, 4])):
+            k = r.random()
+            if k < (0.45 if j == 0 else 0.15):
+                lines.append(S + r.choice(STS_LINES))
+            elif k < 0.4:
+                lines.append(r.choice(['ERROR :Closing link: (bye)', 'ERROR :You are connecting too fast', S + 'PING :vt']))
+            else:
+                lines.append(gen_adv_line(r, run.obs[-1]))
+        run.run(now, r.random() < 0.6, lines, 'PARTIAL' if r.random() < 0.1 else None)
+    run.close()
+    return run
+
+def make_real_case(run, kind='real', preds=None):
+    bad = real_oracle(run)
+    if preds is not None:
+        bad = [b for b in bad if b[0] in preds]
+    ops = [list(op) for op in run.ops]
+    t = set(['real'])
+    for o in run.obs:
+        t.add('fsm:' + o.fsm)
+        for e in o.x['events']:
+            t.add('drv:' + e[0] + (':wait' if e[0] == 'reconnect' and e[1] else '') + (':server' if e[0] == 'reconnect' and e[2] else '') +
+                  ((':tls' if e[2] else ':plain') + (':verify' if e[3] else '') if e[0] == 'connected' else ''))
+        if o.x['policies']:
+            t.add('db:policy')
+    c = XCase({'cfg': run.cfg, 'ops': ops, 'real': True}, kind=kind, tags=sorted(t))
+    c.impl = '\n'.join(o.s for o in run.obs)
+    c.oracle_ok = not bad
+    c.oracle_msg = '; '.join('%s: %s' % b for b in bad[:4])
+    c.finding = None
+    c._lines = run.lines
+    c._bad = bad
+    c._skip_first = True
+    return c
+
+def run_real(cfg, ops):
+    run = RealRun(cfg)
+    for op in ops:
+        if op[0] == 'dstart':
+            run.start()
+        else:
+            run.run(op[1], op[2], op[3], op[4] if len(op) > 4 else None)
+    run.close()
+    return run
+
+# ------------------------------------------------------------------------------------------
 # model side
 # ------------------------------------------------------------------------------------------
 def cfg_line(cfg, real=False, servers=()):
@@ -255,17 +746,23 @@ def cfg_line(cfg, real=False, servers=()):
     return '\t'.join(f)
 
 def unify(model, impl):
-    """model tokens ending in ':?' (random nick, ecdsa signature, JOIN list) match any impl token of that command"""
+    """model tokens ending in ':?' (random nick, ecdsa signature, JOIN list) match any impl token of that
+    command — in the outs field and, for real-driver observations, in the queued and wire fields"""
+    if ':?' not in model:
+        return impl
     mf = model.split('\t'); jf = impl.split('\t')
-    if len(mf) != len(jf) or ':?' not in mf[0]:
+    if len(mf) != len(jf):
         return impl
-    mt = mf[0].split(';'); it = jf[0].split(';')
-    if len(mt) != len(it):
-        return impl
-    for i, t in enumerate(mt):
-        if t.endswith(':?') and it[i].startswith(t[:-1]):
-            it[i] = t
-    jf[0] = ';'.join(it)
+    for fi in (0, 16, 17):
+        if fi >= len(mf) or ':?' not in mf[fi]:
+            continue
+        mt = mf[fi].split(';'); it = jf[fi].split(';')
+        if len(mt) != len(it):
+            continue
+        for i, t in enumerate(mt):
+            if t.endswith(':?') and it[i].startswith(t[:-1]):
+                it[i] = t
+        jf[fi] = ';'.join(it)
     return '\t'.join(jf)
 
 # ------------------------------------------------------------------------------------------
@@ -672,11 +1169,11 @@ def make_case(run, kind, stuck=False):
     c._bad = bad
     return c
 
-def fill_model(cases):
+def fill_model(cases, prop=None):
     lines = []
     for c in cases:
         lines += [l for l in c._lines if l is not None]
-    outs = wire.run_driver(PROPERTY, lines)
+    outs = wire.run_driver(prop or PROPERTY, lines)
     i = 0
     for c in cases:
         mo = []
@@ -685,6 +1182,8 @@ def fill_model(cases):
                 mo.append('skipped')
             else:
                 mo.append(outs[i]); i += 1
+        if getattr(c, '_skip_first', False):
+            mo = mo[1:]          # real-driver runs: the observation after `new` has no counterpart
         impl = c.impl.split('\n')
         c.impl = '\n'.join(unify(m, j) for m, j in zip(mo, impl))
         c.model = '\n'.join(mo)
@@ -699,13 +1198,16 @@ def load_corpus():
                 out.append(json.load(open(os.path.join(d, f))))
     return out
 
-def explore(ctx, n_adv, n_conf, n_mixed, stream='c08'):
+def explore(ctx, n_adv, n_conf, n_mixed, n_real=0, stream='c08'):
     boot()
     r = rng.make(stream)
     cases = []
     for w in load_corpus():
-        run = run_impl(w['cfg'], [tuple(op) for op in w['ops']])
-        cases.append(make_case(run, 'corpus'))
+        if w.get('real'):
+            cases.append(make_real_case(run_real(w['cfg'], w['ops']), 'corpus', preds=('epoch_clean',)))
+        else:
+            run = run_impl(w['cfg'], [tuple(op) for op in w['ops']])
+            cases.append(make_case(run, 'corpus'))
     for _ in range(n_adv):
         run, _ = script_adversarial(r, gen_cfg(r, 'adv'), r.randint(1, 40))
         cases.append(make_case(run, 'adversarial'))
@@ -715,6 +1217,9 @@ def explore(ctx, n_adv, n_conf, n_mixed, stream='c08'):
     for _ in range(n_mixed):
         run, _ = script_conformant(r, gen_cfg(r, 'mixed'), noise=r.choice([0.05, 0.15, 0.4]))
         cases.append(make_case(run, 'mixed'))
+    for _ in range(n_real):
+        run = script_real(r, gen_real_cfg(r), r.randint(1, 8))
+        cases.append(make_real_case(run, 'real-driver', preds=('epoch_clean',)))
     return cases
 
 RULE = ('seeded server scripts against a real irclib.Irc (Owner plugin loaded, world.testing False) with a recording stub driver: '
@@ -729,12 +1234,12 @@ RULE = ('seeded server scripts against a real irclib.Irc (Owner plugin loaded, w
 def run(ctx):
     build = leanbuild.ensure(PROPERTY, THEOREMS, thorough=ctx.thorough, extractors=['Conn'])
     scale = 12 if ctx.thorough else 1
-    cases = explore(ctx, 900 * scale, 700 * scale, 400 * scale)
+    cases = explore(ctx, 900 * scale, 700 * scale, 400 * scale, 250 * scale)
     if build.driver_ok:
         fill_model(cases)
     def search(disagreements, broken):
         os.environ['VERIF_SEED'] = str(ctx.seed + 7919)
-        more = explore(ctx, 3000, 2000, 1000, stream='c08-search')
+        more = explore(ctx, 3000, 2000, 1000, 600, stream='c08-search')
         os.environ['VERIF_SEED'] = str(ctx.seed)
         return [c for c in more if c.oracle_ok is False]
     return verdict.conclude(PROPERTY, ctx.tier, ctx.seed, build, cases, search=search, rule=RULE,
@@ -746,6 +1251,15 @@ def replay(ctx, path):
     if not c:
         print(json.dumps(d, indent=1)); return 0
     inp = c['input']
+    if inp.get('real'):
+        run = run_real(inp['cfg'], inp['ops'])
+        print('cfg:', json.dumps(inp['cfg']))
+        for op, o in zip(run.ops, run.obs):
+            print('<', op)
+            print('    state=%s events=%s wire=%s policies=%s inbuffer=%r' % (o.fsm, o.x['events'], o.x['wire'], o.x['policies'], o.x['inbuffer']))
+        print('property predicates violated now:', real_oracle(run) or 'none')
+        print('recorded:', c.get('oracle_msg'))
+        return 0
     run = run_impl(inp['cfg'], [tuple(op) for op in inp['ops']])
     print('cfg:', json.dumps(inp['cfg']))
     for op, o in zip([('new',)] + run.ops, run.obs):
